@@ -32,6 +32,9 @@ type c08Params struct {
 	// Handshake again, and a peer that starts from scratch sends the complete flow. What the endpoint has then been
 	// sent is Seq (the first Restart messages, then the whole flow): not a legal flow.
 	Restart int `json:"restart,omitempty"`
+	// DPack (datagram stack): everything the peer sends without reading in between (handshake messages,
+	// ChangeCipherSpec, Finished) shares one datagram, as the library's own flights do
+	DPack bool `json:"dpack,omitempty"`
 }
 
 func (c08) ID() string    { return "C08" }
@@ -163,6 +166,11 @@ func c08List(tier string) []c08Params {
 			}
 			q.Pack = true
 			out = append(out, q)
+			if q.Stack == DTLCP {
+				// and with every run of sends in one datagram (legal framing too)
+				q.Pack, q.DPack = false, true
+				out = append(out, q)
+			}
 		}
 		c08Lists[ti] = out
 	})
@@ -359,6 +367,9 @@ func (c08) Run(c *Case, src *vs.Src) *Result {
 			if p.Pack {
 				ops = c08PackRuns(ops)
 			}
+			if p.DPack {
+				ops = c08DgramRuns(ops)
+			}
 			po := pr.Run(o, ops)
 			if po.Err != nil {
 				out.peerErr = fmt.Sprintf("%s: %v", po.StoppedAt, po.Err)
@@ -390,9 +401,12 @@ func (c08) Run(c *Case, src *vs.Src) *Result {
 	} else {
 		o = run(0, p.Seq, nil, nil)
 	}
-	r.Key = hashKey(p.Stack, p.Role, p.Flow, strings.Join(p.Seq, ","), p.Pack)
+	r.Key = hashKey(p.Stack, p.Role, p.Flow, strings.Join(p.Seq, ","), p.Pack, p.DPack)
 	if p.Pack {
 		sigp += " packed"
+	}
+	if p.DPack {
+		sigp += " one-datagram"
 	}
 	// a datagram endpoint whose peer falls silent keeps waiting (or retransmitting): "not completed"
 	if o.reason != vs.Done && !((o.reason == vs.TimeUp || o.reason == vs.Deadlock) && p.Stack == DTLCP) {
@@ -514,6 +528,39 @@ func c08PackRuns(ops []string) []string {
 		}
 		out = append(out, ops[i])
 		i++
+	}
+	return out
+}
+
+// c08DgramRuns wraps every run of two or more consecutive sends (anything that is not a read) in "{" "}".
+func c08DgramRuns(ops []string) []string {
+	// (alerts and application data are left in datagrams of their own: what the record layer does with the rest of
+	// a datagram behind them is not a matter of message order)
+	isSend := func(k string) bool {
+		switch k {
+		case "CH", "SH", "CERT", "SKX", "CR", "SHD", "CKE", "CV", "FIN", "CCS", "HREQ":
+			return true
+		}
+		return false
+	}
+	var out []string
+	for i := 0; i < len(ops); {
+		j := i
+		for j < len(ops) && isSend(ops[j]) {
+			j++
+		}
+		if j-i >= 2 {
+			out = append(out, "{")
+			out = append(out, ops[i:j]...)
+			out = append(out, "}")
+			i = j
+			continue
+		}
+		if j == i {
+			j = i + 1
+		}
+		out = append(out, ops[i:j]...)
+		i = j
 	}
 	return out
 }
